@@ -90,6 +90,7 @@ class IkeSa(object):
         self.ike_sa_init_req_data = None
         self.ike_sa_init_res_data = None
         self.request = None
+        self.request_data = None
         self.creating_child_sa = None
         self.rekeying_child_sa = None
         self.deleting_child_sa = None
@@ -302,6 +303,9 @@ class IkeSa(object):
         self.retransmissions = 1
         self.retransmit_at = time.time() + IkeSa.RETRANSMISSION_DELAY
         request_data = request.to_bytes()
+        # keep the request that is now outstanding and the exact bytes sent (used for retransmissions)
+        self.request = request
+        self.request_data = request_data
         self.log_message(request, request_data, send=True)
         return request_data
 
@@ -881,7 +885,7 @@ class IkeSa(object):
                 self.retransmit_at = self.retransmit_at + self.retransmissions * IkeSa.RETRANSMISSION_DELAY
                 ordinal = lambda n: "%d%s" % (n, "tsnrhtdd"[(n / 10 % 10 != 1) * (n % 10 < 4) * n % 10::4])
                 self.log_info('Retransmitting last request for {} time'.format(ordinal(self.retransmissions)))
-                return self.request.to_bytes()
+                return self.request_data
         return None
 
     def process_ike_auth_request(self, request):
